@@ -18,11 +18,14 @@ TEX = 'This is ä \\textbf{testx}.\nSecond $x$ line\\footnote{Foot text}.\n\nLas
 # second source: the text ends where the file ends (positions behind the last character are critical there)
 TEX2 = 'A ä b.\nLast \\textbf{line} $x'      # ... and with a LaTeX problem close to the end (split error mark)
 # third source: many short lines, for a long match with a short one nested in it
+# fourth source: plain end - the last character of the text is the last character of the file
+TEX4 = 'A ä b.\nLast \\textbf{line}'
 TEX3 = ''.join('line%d \\emph{w%d} end\n' % (i, i) for i in range(9))
 MODES = ['plain', 'json', 'xml', 'xml-b', 'html', 'server']
 _plain = None
 _plain3 = None
 _plain2 = None
+_plain4 = None
 
 
 def plain_text():
@@ -40,6 +43,15 @@ def plain_text3():
         from .. import impl
         _plain3 = impl.run_filter(TEX3, {'pack': '*', 'lang': 'en-GB', 'char': True}).result[0]
     return _plain3
+
+
+def plain_text4():
+    global _plain4
+    if _plain4 is None:
+        from .. import impl
+        o = impl.run_filter(TEX4 + '\n', {'pack': '*', 'lang': 'en-GB', 'char': True})
+        _plain4 = o.result[0]
+    return _plain4
 
 
 def plain_text2():
@@ -136,6 +148,9 @@ def answer_bytes(case):
         return RAW[case[1]]
     if kind == 'pair':
         t = plain_text() + '\n\n'
+        return shell.lt_answer([shell.lt_match(t, case[1], case[2], message='m')])
+    if kind == 'end0':
+        t = plain_text4() + '\n\n'
         return shell.lt_answer([shell.lt_match(t, case[1], case[2], message='m')])
     if kind == 'end':
         t = plain_text2() + '\n\n'
@@ -247,6 +262,10 @@ class C15:
         with open(os.path.join(d, 'h.tex'), 'w', encoding='utf-8') as f:
             f.write(TEX3)
         self.sess3 = shell.Session(['--language', 'en-GB', '--context', '0', 'h.tex'], lambda t, c: b'', cwd=d)
+        with open(os.path.join(d, 'k.tex'), 'w', encoding='utf-8') as f:
+            f.write(TEX4)
+        self.sess4 = shell.Session(['--language', 'en-GB', 'k.tex'], lambda t, c: b'', cwd=d)
+        plain_text4()
         plain_text()
         plain_text2()
         plain_text3()
@@ -288,6 +307,10 @@ class C15:
         for o in range(N2):
             for l in list(range(0, N2 - o + 1)) + [N2 + 5, 1000]:
                 yield ['end', o, l]
+        N4 = len(plain_text4()) + 2
+        for o in range(N4):
+            for l in list(range(0, N4 - o + 1)) + [N4 + 5, 1000]:
+                yield ['end0', o, l]
         N3 = len(plain_text3())
         for o in (0, 5, 14):
             for l in (20, 60, N3 - o):
@@ -306,10 +329,10 @@ class C15:
                 yield ['faults', [f, g]]
 
     def run_mode(self, mode, ans, second=False):
-        s = self.sess3 if second == 3 else self.sess2 if second else self.sess
+        s = self.sess3 if second == 3 else self.sess4 if second == 4 else self.sess2 if second else self.sess
         s.answer = lambda t, c: ans
         if mode == 'server':
-            val, err, code, exc = s.request({'language': ['en-GB'], 'text': [TEX3 if second == 3 else TEX2 + '\n' if second else TEX]})
+            val, err, code, exc = s.request({'language': ['en-GB'], 'text': [TEX3 if second == 3 else TEX4 + '\n' if second == 4 else TEX2 + '\n' if second else TEX]})
             if val is not None:
                 try:
                     json.dumps(val).encode('ascii')
@@ -332,7 +355,7 @@ class C15:
         viol = []
         outs = []
         what = self.what(case)
-        second = 3 if case[0] == 'nest' else case[0] == 'end'
+        second = 3 if case[0] == 'nest' else 4 if case[0] == 'end0' else case[0] == 'end'
         for mode in MODES:
             out, err, code, exc = self.run_mode(mode, ans, second)
             det = {'answer': ans[:1500].decode('utf-8', 'replace'), 'mode': mode, 'stderr': err[-400:], 'fault': what}
@@ -347,7 +370,7 @@ class C15:
                     viol.append({'clause': 'stops with its own one-line diagnostic and exit status 1', 'sig': 'C15:exit:%s:%s' % (code, mode),
                                  'detail': det})
                 continue
-            tex = TEX3 if second == 3 else TEX2 + '\n' if second else TEX
+            tex = TEX3 if second == 3 else TEX4 + '\n' if second == 4 else TEX2 + '\n' if second else TEX
             p = judge_output(mode, out, tex)
             outs.append('report')
             if p:
@@ -393,13 +416,13 @@ class C15:
     def conformance_one(self, case):
         d = os.path.join(core.scratch_dir(), 'cli15')
         ans = answer_bytes(case)
-        second = 3 if case[0] == 'nest' else case[0] == 'end'
+        second = 3 if case[0] == 'nest' else 4 if case[0] == 'end0' else case[0] == 'end'
         viol = []
         n = 0
         for mode in ('plain', 'html', 'json'):
             out, err, code, exc = self.run_mode(mode, ans, second)
-            rc, cout, cerr, args = shell.run_cli(['--language', 'en-GB', '--output', mode] + (['--context', '0', 'h.tex'] if second == 3 else ['g.tex'] if second else ['--link', 'f.tex']),
-                                                 {'f.tex': TEX, 'g.tex': TEX2, 'h.tex': TEX3}, {}, ans, d)
+            rc, cout, cerr, args = shell.run_cli(['--language', 'en-GB', '--output', mode] + (['--context', '0', 'h.tex'] if second == 3 else ['k.tex'] if second == 4 else ['g.tex'] if second else ['--link', 'f.tex']),
+                                                 {'f.tex': TEX, 'g.tex': TEX2, 'h.tex': TEX3, 'k.tex': TEX4}, {}, ans, d)
             n += 1
             if exc:
                 same = 'Traceback' in cerr and rc == 1
